@@ -32,7 +32,7 @@ def main():
 
 def validate_dataset(args):
     # Delayed imports to speed up --help
-    from hed.errors import get_printable_issue_string
+    from hed.errors import get_printable_issue_string, replace_tag_references
     from hed.tools import BidsDataset
     from hed import _version as vr
 
@@ -41,6 +41,8 @@ def validate_dataset(args):
     issue_list = bids.validate(check_for_warnings=args.check_for_warnings)
     # Output based on format
     if args.format in ("json", "json_pp"):
+        # Issues refer to tag and string objects, which json cannot write: replace them by their text first.
+        replace_tag_references(issue_list)
         kw = {"indent": 4} if args.format == "json_pp" else {}
         output = json.dumps(
             {
